@@ -10,6 +10,7 @@
 //@include survivors_vocab.vs
 use crate::parser::*;
 //@include stack_vocab.vs
+//@include ep_vocab.vs
 //@include parser_vocab.vs
 //@include seam_vocab.vs
 //@include blank_line_law.vs
